@@ -18,6 +18,13 @@ class HarnessError(Exception):
     pass
 
 
+class PrefixBroken(Exception):
+    """A scripted prefix (scenario init / base history: whole packets, acknowledgements in order) could not be executed
+    as scripted on this tree, e.g. a request that the script acknowledges was refused.  On the unchanged tree every
+    prefix runs (checked on every run), so this is a verdict about the tree, not a harness error."""
+    pass
+
+
 def V(kind, sig, detail=''):
     """A violation record (property id is added by the check)."""
     return {'kind': kind, 'signature': sig, 'detail': detail}
@@ -60,7 +67,10 @@ def build(scn, mon_cls, hist, check_obs=None):
     m = mon_cls(w, scn)
     viols = []
     for ev in scn.init:
-        w.apply(ev)
+        try:
+            w.apply(ev)
+        except Exception as e:      # noqa
+            raise PrefixBroken('%s: scripted event %r failed with %s: %s' % (scn.name, ev, type(e).__name__, e))
         m.step(w)
     n = len(hist)
     lazy = getattr(mon_cls, 'stateless', False)
